@@ -648,6 +648,8 @@ def _mip(rc: RuleCtx):
         raise AnalysisError("evaluation.mip: loop header has no recognised shape")
     benv = dict(env)
     benv.update(b.bindings)
+    from .common import carry
+    carry(ev, loop, env, benv)
     out = ev.eval_loop_body(fi, loop, benv)
     sts = [e for e in out.events if e.kind == "store"]
     if not sts:
